@@ -50,7 +50,7 @@ func (d *SystemDate) UnmarshalUT0311L0x(b []byte) (interface{}, error) {
 		return nil, err
 	}
 
-	date, err := time.ParseInLocation("060102", decoded, time.Local)
+	date, err := parseLocalDate("060102", decoded)
 	if err != nil {
 		return nil, err
 	}
